@@ -4,6 +4,7 @@ import (
 	"context"
 	"encoding/json"
 	"fmt"
+	"regexp"
 	"strconv"
 	"strings"
 	"time"
@@ -43,6 +44,33 @@ func c17OpName(op string) string {
 	return "nre"
 }
 
+// c17SelectorArg is a selector in the driver's notation `eq|ne|re|nre:<hex name>:<hex value>[:e]`; `:e` = Go's regexp finds
+// the anchored pattern of a =~ / !~ selector in the empty string (what the planner's acceptsEmpty asks; the
+// regular-expression engine stays outside the model)
+func c17SelectorArg(s c17E2EMatcher) string {
+	a := c17OpName(s.Type) + ":" + s.Name + ":" + s.Value
+	if s.Type == "=~" || s.Type == "!~" {
+		if re, err := regexp.Compile("^(?:" + string(h.UnHex(s.Value)) + ")$"); err == nil && re.MatchString("") {
+			a += ":e"
+		}
+	}
+	return a
+}
+
+// c17ProfAcceptsEmpty: Pyroscope's reading, written down independently of the planner: does a label without value (a
+// label the series does not have) satisfy the selector
+func c17ProfAcceptsEmpty(op, val string) bool {
+	switch op {
+	case "=":
+		return val == ""
+	case "!=":
+		return val != ""
+	}
+	re, err := regexp.Compile("^(?:" + val + ")$")
+	m := err == nil && re.MatchString("")
+	return m == (op == "=~")
+}
+
 func c17RunProf(r *h.Result, c *c17ProfCase) (string, string, error) {
 	var sels []parser.Selector
 	var parts []string
@@ -67,7 +95,7 @@ func c17RunProf(r *h.Result, c *c17ProfCase) (string, string, error) {
 		}
 	}
 	for _, s := range c.Selectors {
-		parts = append(parts, c17OpName(s.Type)+":"+s.Name+":"+s.Value)
+		parts = append(parts, c17SelectorArg(s))
 	}
 	ctx := shared.PlannerContext{From: time.Unix(c.From, 0), To: time.Unix(c.To, 0), Ctx: context.Background(), ProfilesSeriesGinTable: "profiles_series_gin"}
 	q, err := (&proftr.StreamSelectorPlanner{Selectors: sels}).Process(&ctx)
@@ -137,14 +165,25 @@ func c17SQLQuote(s string) string {
 func c17ProfOracle(r *h.Result, c *c17ProfCase, text string) {
 	text = c17Collapse(text)
 	nkv := 0
+	want := uint64(0) // the bits of the key/value selectors that need an index row
 	for _, s := range c.Selectors {
 		name, val := string(h.UnHex(s.Name)), string(h.UnHex(s.Value))
 		field, arr, kv := "val", false, true
 		if f, ok := c17ProfField[name]; ok {
 			field, arr, kv = f[0], f[1] == "arr", false
 		}
+		op := s.Type
+		if kv {
+			// a key/value selector that accepts the empty value also holds for a series without the label: the index
+			// (one row per label the series has) can only be asked whether a row of the label violates it
+			if c17ProfAcceptsEmpty(op, val) {
+				op = map[string]string{"=": "!=", "!=": "=", "=~": "!~", "!~": "=~"}[op]
+			} else if nkv < 64 {
+				want |= uint64(1) << uint(nkv)
+			}
+		}
 		var cond string
-		switch s.Type {
+		switch op {
 		case "=":
 			cond = "(" + field + ") == (" + c17SQLQuote(val) + ")"
 		case "!=":
@@ -169,8 +208,15 @@ func c17ProfOracle(r *h.Result, c *c17ProfCase, text string) {
 			r.Violate(key, fmt.Sprintf("selector %s%s%q is not rendered as %s", name, s.Type, val, cond), *c)
 		}
 	}
-	if nkv > 0 && nkv <= 62 && !strings.Contains(text, fmt.Sprintf("== (%d))", (uint64(1)<<uint(nkv))-1)) {
-		r.Violate("C17/prof-having-constant", fmt.Sprintf("%d key/value selectors but HAVING does not compare with %d", nkv, (uint64(1)<<uint(nkv))-1), *c)
+	if nkv > 0 && nkv <= 62 && !strings.HasSuffix(text, fmt.Sprintf(") == (%d))", want)) {
+		r.Violate("C17/prof-having-constant", fmt.Sprintf("%d key/value selectors: HAVING does not compare the bit set with %d (a bit per selector that needs an index row, none for a selector that accepts the empty value)", nkv, want), *c)
+	}
+	where := text
+	if i := strings.Index(text, " GROUP BY "); i >= 0 {
+		where = text[:i]
+	}
+	if nkv > 0 && nkv <= 62 && (want != 0) != strings.Contains(where, "((key) == (") {
+		r.Violate("C17/prof-row-filter", fmt.Sprintf("%d key/value selectors, required bits %d: the rows are filtered by the OR of the clauses exactly when a bit is required", nkv, want), *c)
 	}
 }
 
@@ -202,7 +248,11 @@ func c17Prof(r *h.Result, rng *h.Rng, n int) error {
 			} else {
 				val = rng.Bytes(10)
 			}
-			c.Selectors = append(c.Selectors, c17E2EMatcher{Type: h.Pick(rng, types), Name: h.Hex([]byte(name)), Value: h.Hex(val)})
+			typ := h.Pick(rng, types)
+			if _, err := regexp.Compile("^(?:" + string(val) + ")$"); err != nil && (typ == "=~" || typ == "!~") {
+				typ = map[string]string{"=~": "=", "!~": "!="}[typ] // not a regular expression: the planner refuses the selector
+			}
+			c.Selectors = append(c.Selectors, c17E2EMatcher{Type: typ, Name: h.Hex([]byte(name)), Value: h.Hex(val)})
 		}
 		op, im, err := c17RunProf(r, &c)
 		if err != nil {
